@@ -13,6 +13,7 @@ import (
 	"os"
 	"os/exec"
 	"path/filepath"
+	"regexp"
 	"runtime"
 	"runtime/pprof"
 	"sort"
@@ -124,9 +125,76 @@ var (
 
 var testBin = envOr("SYMGO_TESTBIN", "/verif/bin/harness.test")
 
+// instrument inserts verifHook calls before the synchronisation statements of a fox source file
+// (native schedule replay; the instrumented copy only exists as a build overlay).
+func instrument(src string) string {
+	var out []string
+	reLock := regexp.MustCompile(`^(\s*)([\w.]+)\.mu\.Lock\(\)\s*$`)
+	reUnlock := regexp.MustCompile(`^(\s*)([\w.]+)\.mu\.Unlock\(\)\s*$`)
+	reDeferUnlock := regexp.MustCompile(`^(\s*)defer ([\w.]+)\.mu\.Unlock\(\)\s*$`)
+	reStore := regexp.MustCompile(`^(\s*)[\w.]+\.tree\.Store\(`)
+	reLoad := regexp.MustCompile(`^(\s*).*\.tree\.Load\(\)`)
+	for _, line := range strings.Split(src, "\n") {
+		switch {
+		case reDeferUnlock.MatchString(line):
+			m := reDeferUnlock.FindStringSubmatch(line)
+			out = append(out, m[1]+"defer func() { verifHook(\"unlock\"); "+m[2]+".mu.Unlock() }()")
+			continue
+		case reLock.MatchString(line):
+			out = append(out, reLock.FindStringSubmatch(line)[1]+"verifHook(\"lock\")")
+		case reUnlock.MatchString(line):
+			out = append(out, reUnlock.FindStringSubmatch(line)[1]+"verifHook(\"unlock\")")
+		case reStore.MatchString(line):
+			out = append(out, reStore.FindStringSubmatch(line)[1]+"verifHook(\"store\")")
+		case reLoad.MatchString(line) && !strings.Contains(line, "func "):
+			out = append(out, reLoad.FindStringSubmatch(line)[1]+"verifHook(\"load\")")
+		}
+		out = append(out, line)
+	}
+	return strings.Join(out, "\n")
+}
+
+// writeOverlay generates the build overlay used by the native replay builds: the in-package exports plus
+// instrumented copies of every non-test root-package file that contains a synchronisation statement.
+func writeOverlay() (string, error) {
+	dir := filepath.Dir(testBin) + "/ovl"
+	os.MkdirAll(dir, 0o755)
+	repl := map[string]string{
+		repoDir + "/clientip/zz_verif_export.go": harnessDir + "/overlay/clientip_export.go.txt",
+		repoDir + "/zz_verif_hook.go":            harnessDir + "/overlay/fox_hook.go.txt",
+	}
+	files, _ := filepath.Glob(repoDir + "/*.go")
+	for _, f := range files {
+		if strings.HasSuffix(f, "_test.go") {
+			continue
+		}
+		b, err := os.ReadFile(f)
+		if err != nil {
+			return "", err
+		}
+		ins := instrument(string(b))
+		if ins == string(b) {
+			continue
+		}
+		dst := dir + "/" + filepath.Base(f)
+		if err := os.WriteFile(dst, []byte(ins), 0o644); err != nil {
+			return "", err
+		}
+		repl[f] = dst
+	}
+	js, _ := json.MarshalIndent(map[string]any{"Replace": repl}, "", " ")
+	p := dir + "/overlay.json"
+	return p, os.WriteFile(p, js, 0o644)
+}
+
 func buildTestBinary() error {
 	testBinOnce.Do(func() {
-		cmd := exec.Command("go", "test", "-c", "-vet=off", "-overlay", harnessDir+"/overlay.json", "-o", testBin, ".")
+		ovl, err := writeOverlay()
+		if err != nil {
+			testBinErr = err
+			return
+		}
+		cmd := exec.Command("go", "test", "-c", "-vet=off", "-overlay", ovl, "-o", testBin, ".")
 		cmd.Dir = harnessDir
 		cmd.Env = append(os.Environ(), "GOFLAGS=-mod=mod", "GOPROXY=off")
 		out, err := cmd.CombinedOutput()
@@ -631,7 +699,12 @@ var raceBin = envOr("SYMGO_TESTBIN", "/verif/bin/harness.test") + ".race"
 
 func buildRaceBinary() error {
 	raceBinOnce.Do(func() {
-		cmd := exec.Command("go", "test", "-c", "-race", "-vet=off", "-overlay", harnessDir+"/overlay.json", "-o", raceBin, ".")
+		ovl, err := writeOverlay()
+		if err != nil {
+			raceBinErr = err
+			return
+		}
+		cmd := exec.Command("go", "test", "-c", "-race", "-vet=off", "-overlay", ovl, "-o", raceBin, ".")
 		cmd.Dir = harnessDir
 		cmd.Env = append(os.Environ(), "GOFLAGS=-mod=mod", "GOPROXY=off", "CGO_ENABLED=1")
 		out, err := cmd.CombinedOutput()
